@@ -25,6 +25,7 @@ type readEvent struct {
 	Err       string // "", "eof", "err"
 	Delivered int    // bytes delivered so far, after this read
 	Written   int    // bytes the prefix writer had received when Read was entered
+	Call      int    // index (0-based) of the ScanSnapshot call that issued the Read
 }
 
 // source is a scripted io.Reader over a fixed byte stream. plan gives the
@@ -45,6 +46,7 @@ type source struct {
 	log      []readEvent
 	keepLog  bool
 	written  func() int // bytes received by the prefix writer so far
+	call     int        // index of the call in progress (set by runStream)
 	hung     bool
 }
 
@@ -71,7 +73,7 @@ func (s *source) Read(p []byte) (int, error) {
 		s.hung = true
 		return 0, errBudget
 	}
-	ev := readEvent{Offered: len(p), Written: w}
+	ev := readEvent{Offered: len(p), Written: w, Call: s.call}
 	n, err := s.read(p)
 	ev.N = n
 	if err == io.EOF {
@@ -193,6 +195,7 @@ func runStream(src *source, opts *stack.Opts, maxCalls int) []callObs {
 	src.written = func() int { return total }
 	for i := 0; i < maxCalls; i++ {
 		w := &recWriter{}
+		src.call = i
 		cur := total
 		src.written = func() int { return cur + w.buf.Len() }
 		snap, suffix, err, pan := scanOnce(in, w, opts)
@@ -236,6 +239,40 @@ func deliveries(lineLens []int, rng *rand.Rand, full bool) []delivery {
 	}
 	ds := []delivery{{name: "all"}}
 	ds = append(ds, delivery{name: "line", plan: append([]int{}, lineLens...)})
+	// pieces of two or three lines, and pieces that end in the middle of a line:
+	// what a live source that blocks between writes looks like
+	{
+		var pairs, mid []int
+		for i := 0; i < len(lineLens); {
+			k := 2 + rng.Intn(2)
+			n := 0
+			for j := 0; j < k && i < len(lineLens); j++ {
+				n += lineLens[i]
+				i++
+			}
+			pairs = append(pairs, n)
+		}
+		carry := 0
+		for i, l := range lineLens {
+			if i == len(lineLens)-1 || l < 2 {
+				mid = append(mid, carry+l)
+				carry = 0
+				continue
+			}
+			h := 1 + rng.Intn(l-1)
+			mid = append(mid, carry+h)
+			carry = l - h
+		}
+		if carry > 0 {
+			mid = append(mid, carry)
+		}
+		if full || rng.Intn(2) == 0 {
+			ds = append(ds, delivery{name: "pairs", plan: pairs})
+		}
+		if full || rng.Intn(2) == 0 {
+			ds = append(ds, delivery{name: "midline", plan: mid})
+		}
+	}
 	if !full {
 		// one more, picked by the seed
 		switch rng.Intn(3) {
